@@ -444,7 +444,13 @@ class ConcWorld(BaseWorld):
         self.big = seed % 4 == 3  # every fourth seed explores larger dimensions
         # every fifth seed uses entries of tiny magnitude (data in a large unit): absolute tolerances hidden in the
         # code under test show up there; the comparison tolerance of the contracts scales along
-        self.scale = 1e-10 if seed % 5 == 4 else 1.0
+        self.scale = 2.0**-33 if seed % 5 == 4 else 1.0  # (a power of two: scaling stays exact in binary floating point)
+        # every third seed gives all dimensions the same length (a positional mix-up cannot hide behind a shape
+        # error); every seventh seed lets dimensions share items (bare keys become ambiguous)
+        self.square = seed % 3 == 2
+        self._square_n = None
+        self.shared_items = seed % 7 == 5
+        self._n_dims_made = 0
         self.fill = fill
         self.default_size = default_size
         self.checked = 0
@@ -464,10 +470,19 @@ class ConcWorld(BaseWorld):
         if n is None:
             n = self.sizes.get(tag) or self._used_sizes.get(tag)
         if n is None:
-            n = max(lo, self.rng.choice([4, 5, 6] if self.big else [1, 2, 3]) if self.default_size is None else self.default_size)
+            if self.square and self.default_size is None:
+                if self._square_n is None:
+                    self._square_n = self.rng.choice([4, 5] if self.big else [2, 3])
+                n = max(lo, self._square_n)
+            else:
+                n = max(lo, self.rng.choice([4, 5, 6] if self.big else [1, 2, 3]) if self.default_size is None else self.default_size)
         n = max(int(n), lo)
         self._used_sizes[tag] = n
         name = name or f"Dim{letter.upper()}{letter}"
+        k = sum(map(ord, tag))  # stable per dimension tag: the same dimension made twice has the same items
+        if self.shared_items:
+            # overlapping item pools: dimension k holds it<k%2> .. : some items occur in several dimensions, some do not
+            return Dimension(name=name, letter=letter, items=[f"it{j + (k % 2)}" for j in range(n)])
         return Dimension(name=name, letter=letter, items=[f"{tag}{j}" for j in range(n)])
 
     def array(self, name, dims, cls=None):
